@@ -59,6 +59,34 @@ static Result scenario(int which, uint64_t seed)
             }
             t2->delete_comm(); t3->delete_comm(); pc->delete_comm(); delete part;
         }
+    } else if (which == 5) {
+        // packages of two different halo structures constructed back to back, with nothing in between: first the two
+        // standard packages, then the two 3-step, then the two 2-step packages; a rank that runs ahead is already in the second
+        // construction while a neighbour is still in the first
+        Partition* part[2]; std::vector<int> offs[2]; int lns[2], fcs[2];
+        for (int rep = 0; rep < 2; rep++) {
+            int n = g.range(np + 1, 3 * np + 4);
+            std::vector<int> sizes = vh::compose(g, n, np, 1);
+            std::vector<int> fc(np + 1, 0); for (int p = 0; p < np; p++) fc[p + 1] = fc[p] + sizes[p];
+            std::vector<std::vector<int>> off(np);
+            for (int r = 0; r < np; r++) for (int c = 0; c < n; c++) if (!(c >= fc[r] && c < fc[r + 1]) && g.coin(1, 2)) off[r].push_back(c);
+            lns[rep] = sizes[rank]; fcs[rep] = fc[rank]; offs[rep] = off[rank];
+            part[rep] = new Partition(n, n, lns[rep], lns[rep], fc[rank], fc[rank]);
+        }
+        ParComm* pc[2]; TAPComm* t3[2]; TAPComm* t2[2];
+        pc[0] = new ParComm(part[0], offs[0]); pc[1] = new ParComm(part[1], offs[1]);
+        t3[0] = new TAPComm(part[0], offs[0], true); t3[1] = new TAPComm(part[1], offs[1], true);
+        t2[0] = new TAPComm(part[0], offs[0], false); t2[1] = new TAPComm(part[1], offs[1], false);
+        for (int rep = 0; rep < 2; rep++) {
+            add(R, canon_pkg(pc[rep]));
+            std::vector<int> x(lns[rep]); for (int i = 0; i < lns[rep]; i++) x[i] = 100 * (fcs[rep] + i) + rep;
+            for (CommPkg* c : { (CommPkg*)pc[rep], (CommPkg*)t3[rep], (CommPkg*)t2[rep] }) {
+                std::vector<int>& r = c->communicate(x); add(R, LL(std::vector<int>(r.begin(), r.begin() + offs[rep].size())));
+                std::vector<int> y(offs[rep].size()), res(lns[rep], 0); for (size_t j = 0; j < y.size(); j++) y[j] = offs[rep][j] + 1;
+                c->communicate_T(y, res); add(R, LL(res));
+            }
+        }
+        for (int rep = 0; rep < 2; rep++) { t2[rep]->delete_comm(); t3[rep]->delete_comm(); pc[rep]->delete_comm(); delete part[rep]; }
     } else if (which == 1) {
         int n = g.range(np, 3 * np + 3), k = g.range(np, 3 * np + 3);
         std::vector<int> Rw = vh::compose(g, n, np, 1), I = vh::compose(g, k, np, 1);
@@ -126,12 +154,14 @@ int main(int argc, char** argv)
     std::vector<Sched> scheds = { {0, -1, 0, 0, 0}, {1, -1, 0, 0, 300}, {2, -1, 0, 200, 300}, {2, -1, 0, 400, 100}, {2, -1, 0, 0, 600} };
     // synchronous completion of standard-mode sends (mode + 10): no reliance on eager buffering
     scheds.push_back({10, -1, 0, 0, 0}); scheds.push_back({12, -1, 0, 300, 300});
+    // one laggard rank: its first sends leave 15 ms late, everybody else runs ahead
+    { int lag[] = { 0, np - 1, np / 2, 1 }; int nl = np <= 4 ? np : 3; for (int k = 0; k < nl; k++) scheds.push_back({4, -1, np <= 4 ? k : lag[k], 15000, 0}); }
     if (E.thorough) for (int k = 0; k < 10; k++) scheds.push_back({2, -1, 0, 100 * (k % 4), 100 * (k % 5)});
     // exhaustive per wildcard site for small process counts: every order of preference among the sources
     int sites[] = { 12345, 6543, 9876, 6789, 4321, 7890, 29485 };
     if (np <= (E.thorough ? 4 : 3)) { int nperm = 1; for (int k = 2; k <= np; k++) nperm *= k;
         for (int s : sites) for (int p = 1; p < nperm; p++) scheds.push_back({3, s, p, 0, 400}); }
-    int nscen = 5;
+    int nscen = 6;
     for (int scen = 0; scen < nscen; scen++)
     for (int inst = 0; inst < (E.thorough ? 3 : 1); inst++)
     {
